@@ -145,3 +145,1122 @@ Proof.
 Qed.
 Lemma bl_overwrite m i d : byte_list m -> byte_list d -> byte_list (overwrite m i d).
 Proof. intros. unfold overwrite. apply bl_app; [apply bl_take; assumption|]. apply bl_app; [assumption | apply bl_drop; assumption]. Qed.
+
+(* ================================================================================================ *)
+(* 2. primitives                                                                                    *)
+(* ================================================================================================ *)
+Ltac splits := repeat match goal with |- _ /\ _ => split end.
+Ltac sim := cbn [mem blen rpos limit isnil with_len with_rpos with_mem bind fst snd] in *.
+
+Lemma set_len_ok s k : 0 <= k <= cap s -> set_len s k = Ok (with_len s k).
+Proof. unfold set_len. intros. replace ((k <? 0) || (cap s <? k)) with false by lia. reflexivity. Qed.
+
+Lemma slice_ok {A} (l : list A) a b : 0 <= a <= b -> b <= len l -> slice l a b = Ok (take (b - a) (drop a l)).
+Proof. unfold slice. intros. replace ((a <? 0) || (b <? a) || (len l <? b)) with false by lia. reflexivity. Qed.
+
+Lemma idx_ok {A} (l : list A) i : 0 <= i < len l -> exists x, idx l i = Ok x.
+Proof.
+  unfold idx, len. intros. replace (i <? 0) with false by lia.
+  destruct (nth_error l (Z.to_nat i)) eqn:E; [eauto|].
+  apply nth_error_None in E. lia.
+Qed.
+
+Lemma buf_len s : inv s -> len (buf s) = blen s.
+Proof. unfold inv, buf. intros. apply tk_len. lia. Qed.
+Lemma abs_len s : inv s -> len (abs s) = blen s - rpos s.
+Proof. intros H. unfold abs. rewrite dr_len; rewrite buf_len by assumption; unfold inv in H; lia. Qed.
+Lemma past_len s : inv s -> len (past s) = rpos s.
+Proof. intros H. unfold past. rewrite tk_len; [reflexivity|]. rewrite buf_len by assumption. unfold inv in H; lia. Qed.
+Lemma buf_split s : buf s = past s ++ abs s.
+Proof. unfold past, abs. symmetry. apply tk_dr_id. Qed.
+Lemma slice_abs s : inv s -> slice (buf s) (rpos s) (blen s) = Ok (abs s).
+Proof.
+  intros H. pose proof (buf_len s H). pose proof (abs_len s H). unfold inv in H.
+  rewrite slice_ok by lia. f_equal. apply tk_all. fold (abs s). lia.
+Qed.
+Lemma bl_buf s : inv s -> byte_list (buf s).
+Proof. unfold inv, buf. intros. apply bl_take. tauto. Qed.
+Lemma bl_abs s : inv s -> byte_list (abs s).
+Proof. intros. unfold abs. apply bl_drop. apply bl_buf. assumption. Qed.
+
+(* ================================================================================================ *)
+(* 3. reslice / grow / quickSlice: reserving room at the end                                        *)
+(* ================================================================================================ *)
+(* the outcome of a successful reservation of n bytes on a chunk whose queue was q (retained
+   history p, Limit lim, length bl): the new state s' and the index i where the caller stores *)
+Definition reserved (q p : list Z) (lim bl n : Z) (s' : state) (i : Z) : Prop :=
+  inv s' /\ limit s' = lim /\ rpos s' <= i /\ i <= blen s' /\ i <= bl /\ blen s' - i <= n /\
+  drop (rpos s') (take i (buf s')) = q /\ suffix_of (past s') p /\
+  (0 < lim -> blen s' <= lim) /\ (blen s' - i < n -> 0 < lim /\ blen s' = lim).
+(* a refusal: the queue is as before *)
+Definition same_q (q p : list Z) (lim bl : Z) (s' : state) : Prop :=
+  inv s' /\ limit s' = lim /\ abs s' = q /\ suffix_of (past s') p /\ blen s' <= bl.
+
+Lemma same_q_refl s : inv s -> same_q (abs s) (past s) (limit s) (blen s) s.
+Proof. intros. unfold same_q. split; [assumption|]. split; [reflexivity|]. split; [reflexivity|]. split; [apply suffix_refl | lia]. Qed.
+
+Lemma reslice_spec s n : inv s -> 0 <= n ->
+  reslice s n = Ok None \/
+  exists s', reslice s n = Ok (Some (s', blen s)) /\ reserved (abs s) (past s) (limit s) (blen s) n s' (blen s).
+Proof.
+  intros H Hn. destruct s as [m l r lim nl]. unfold inv in H. sim.
+  destruct H as (H1 & H2 & H3 & H4 & H5).
+  unfold reslice, cap. sim.
+  destruct (n <=? len m - l) eqn:E1; [|left; reflexivity].
+  destruct ((0 <? lim) && (lim <=? l)) eqn:E2; [left; reflexivity|]. right.
+  set (n' := if (0 <? lim) && (lim <=? l + n) then lim - l else n).
+  assert (Hn' : 0 <= n' <= n /\ (0 < lim -> l + n' <= lim) /\ (n' < n -> 0 < lim /\ l + n' = lim))
+    by (subst n'; destruct ((0 <? lim) && (lim <=? l + n)) eqn:E3; lia).
+  rewrite set_len_ok by (unfold cap; sim; lia). unfold with_len; sim.
+  eexists. split; [reflexivity|].
+  unfold reserved, inv, abs, past, buf; sim.
+  repeat split; try lia; try assumption.
+  - rewrite !tk_tk by lia. reflexivity.
+  - rewrite !tk_tk by lia. apply suffix_refl.
+Qed.
+
+Lemma len0_nil {A} (l : list A) : len l = 0 -> l = [].
+Proof. destruct l; [reflexivity|]. rewrite len_cons. pose proof (len_nonneg l). lia. Qed.
+
+Definition grow_post (q p : list Z) (lim bl cp n : Z) (s' : state) (i e : Z) : Prop :=
+  (e = 0 /\ reserved q p lim bl n s' i) \/
+  (i = 0 /\ ((e = ErrLimit /\ 0 < lim) \/ (e = ErrTooLarge /\ MaxSlice < cp + n)) /\ same_q q p lim bl s').
+
+Lemma reserved_weaken q p lim bl n' n s' i :
+  reserved q p lim bl n' s' i -> n' <= n -> (n' < n -> 0 < lim /\ n' = lim) -> reserved q p lim bl n s' i.
+Proof.
+  unfold reserved. intros (Hi & H1 & H2 & H3 & H4 & H5 & H6 & H7 & H8 & H9) Hle Hc.
+  unfold inv in Hi. repeat split; try tauto; try lia.
+Qed.
+
+Lemma grow_body_spec s1 n o : inv s1 -> 0 <= n ->
+  exists s' i e, grow_body s1 (blen s1 - rpos s1) n o = Ok (s', (i, e)) /\
+     grow_post (abs s1) (past s1) (limit s1) (blen s1) (cap s1) n s' i e.
+Proof.
+  intros H Hn. pose proof (slice_abs s1 H) as Hsl. pose proof (abs_len s1 H) as Hal.
+  pose proof (bl_abs s1 H) as Hbq. pose proof (same_q_refl s1 H) as Hsame.
+  pose proof H as Hinv. unfold inv in H. destruct H as (H1 & H2 & H3 & H4 & H5).
+  unfold grow_body. remember (blen s1 - rpos s1) as x eqn:Hx. set (lim := limit s1) in *.
+  destruct ((0 <? lim) && (lim <=? x)) eqn:E0.
+  { exists s1, 0, ErrLimit. split; [reflexivity|]. right. split; [reflexivity|]. split; [left; split; [reflexivity|lia]|assumption]. }
+  set (n' := if (0 <? lim) && (lim <? n) then lim else n).
+  assert (Hn' : 0 <= n' <= n /\ (n' < n -> 0 < lim /\ n' = lim) /\ (0 < lim -> n' <= lim))
+    by (subst n'; destruct ((0 <? lim) && (lim <? n)) eqn:E; lia).
+  destruct (reslice_spec s1 n' Hinv (proj1 (proj1 Hn'))) as [R | (s' & R & HR)]; rewrite R; cbn [bind].
+  2:{ exists s', (blen s1), 0. split; [reflexivity|]. left. split; [reflexivity|].
+      eapply reserved_weaken; [exact HR | lia | tauto]. }
+  destruct (isnil s1 && (n' <=? 64)) eqn:E1.
+  { (* make([]byte, n, 64) *)
+    replace (n' <? 0) with false by lia.
+    assert (Hnil : isnil s1 = true) by (destruct (isnil s1); [reflexivity | discriminate]).
+    specialize (H4 Hnil). rewrite H4 in H3. rewrite len_nil in H3.
+    assert (Hq : abs s1 = []) by (apply len0_nil; lia).
+    eexists _, 0, 0. split; [reflexivity|]. left. split; [reflexivity|].
+    eapply reserved_weaken with (n' := n'); [|lia|tauto].
+    unfold reserved, inv, past, buf; sim. rewrite len_repeat.
+    replace (rpos s1) with 0 by lia. rewrite Hq.
+    repeat split; try lia; try discriminate.
+    - apply bl_zeros.
+    - rewrite tk_0 by lia. apply suffix_nil. }
+  set (m := cap s1).
+  destruct (n' <=? m / 2 - x) eqn:E2.
+  { (* slide *)
+    rewrite Hsl. cbn [bind].
+    set (n'' := if (0 <? lim) && (lim <? x + n') then lim - x else n').
+    assert (Hn'' : 0 <= n'' <= n' /\ (0 < lim -> x + n'' <= lim) /\ (n'' < n' -> 0 < lim /\ x + n'' = lim))
+      by (subst n''; destruct ((0 <? lim) && (lim <? x + n')) eqn:E; lia).
+    assert (Hm : m = len (mem s1)) by reflexivity.
+    assert (Hol : len (overwrite (mem s1) 0 (abs s1)) = len (mem s1)) by (apply ow_len; lia).
+    rewrite set_len_ok by (unfold cap; sim; lia). unfold with_len, with_rpos, with_mem; sim.
+    eexists _, x, 0. split; [reflexivity|]. left. split; [reflexivity|].
+    eapply reserved_weaken with (n' := n'); [|lia|tauto].
+    unfold reserved, inv, past, buf; sim.
+    repeat split; try lia.
+    - intros Hnil. exfalso. specialize (H4 Hnil). rewrite Hnil in E1. rewrite H4 in Hm, H3. rewrite len_nil in Hm, H3. lia.
+    - apply bl_overwrite; assumption.
+    - rewrite tk_tk by lia. rewrite dr_0 by lia.
+      replace x with (0 + len (abs s1)) at 1 by lia. rewrite ow_take_hi by lia.
+      rewrite tk_0 by lia. reflexivity.
+    - rewrite tk_0 by lia. apply suffix_nil. }
+  destruct ((0 <? lim) && ((lim + n' <? m) || (lim <? x + n'))) eqn:E3.
+  { exists s1, 0, ErrLimit. split; [reflexivity|]. right. split; [reflexivity|]. split; [left; split; [reflexivity|lia]|assumption]. }
+  destruct (max_int - m - n' <? m) eqn:E4.
+  { exists s1, 0, ErrTooLarge. split; [reflexivity|]. right. split; [reflexivity|].
+    split; [right; split; [reflexivity|unfold max_int, MaxSlice in *; lia]|assumption]. }
+  rewrite Hsl. cbn [bind].
+  destruct (MaxSlice <? rpos s1 + n') eqn:E5.
+  { exists s1, 0, ErrTooLarge. split; [reflexivity|]. right. split; [reflexivity|].
+    split; [right; split; [reflexivity|subst m; unfold cap in *; lia]|assumption]. }
+  (* reallocation *)
+  set (c := if len (abs s1) + (rpos s1 + n') <? 2 * (m - rpos s1) then 2 * (m - rpos s1) else len (abs s1) + (rpos s1 + n')).
+  set (nc := Z.max c o).
+  assert (Hc : x + rpos s1 + n' <= c) by (subst c; destruct (len (abs s1) + (rpos s1 + n') <? 2 * (m - rpos s1)) eqn:E; lia).
+  assert (Hnc : x + rpos s1 + n' <= nc) by (subst nc; lia).
+  assert (Hcl : len (abs s1 ++ repeat 0 (Z.to_nat (nc - len (abs s1)))) = nc)
+    by (rewrite len_app, len_repeat; lia).
+  rewrite set_len_ok by (unfold cap; sim; lia). unfold with_len; sim.
+  eexists _, x, 0. split; [reflexivity|]. left. split; [reflexivity|].
+  eapply reserved_weaken with (n' := n'); [|lia|tauto].
+  unfold reserved, inv, past, buf; sim.
+  repeat split; try lia; try discriminate.
+  - apply bl_app; [assumption | apply bl_zeros].
+  - rewrite tk_tk by lia. rewrite dr_0 by lia. apply tk_app_exact. lia.
+  - rewrite tk_0 by lia. apply suffix_nil.
+Qed.
+
+Lemma grow_post_mono q p1 p lim bl1 bl cp n s' i e :
+  grow_post q p1 lim bl1 cp n s' i e -> suffix_of p1 p -> bl1 <= bl -> grow_post q p lim bl cp n s' i e.
+Proof.
+  unfold grow_post, reserved, same_q. intros [(He & Hr) | (Hi & He & Hs)] Hp Hb.
+  - left. split; [assumption|]. destruct Hr as (R1 & R2 & R3 & R4 & R5 & R6 & R7 & R8 & R9 & R10).
+    splits; try assumption; try lia; try tauto. eapply suffix_trans; eassumption.
+  - right. split; [assumption|]. split; [assumption|]. destruct Hs as (S1 & S2 & S3 & S4 & S5).
+    splits; try assumption; try lia. eapply suffix_trans; eassumption.
+Qed.
+
+Lemma grow_spec s n o : inv s -> 0 <= n ->
+  exists s' i e, grow s n o = Ok (s', (i, e)) /\
+     grow_post (abs s) (past s) (limit s) (blen s) (cap s) n s' i e.
+Proof.
+  intros H Hn. unfold grow.
+  destruct ((blen s - rpos s =? 0) && negb (rpos s =? 0)) eqn:E; cbn [bind].
+  2:{ apply grow_body_spec; assumption. }
+  pose proof (abs_len s H) as Hal. pose proof H as Hinv. unfold inv in H. destruct H as (H1 & H2 & H3 & H4 & H5).
+  rewrite set_len_ok by (unfold cap; sim; pose proof (len_nonneg (mem s)); lia). cbn [bind].
+  set (s1 := with_len (with_rpos s 0) 0).
+  assert (I1 : inv s1) by (unfold inv, s1; sim; splits; try lia; assumption).
+  assert (A1 : abs s1 = abs s).
+  { rewrite (len0_nil (abs s)) by lia. apply len0_nil. rewrite abs_len by assumption. unfold s1; sim. lia. }
+  assert (P1 : past s1 = []) by (unfold past, s1; sim; apply tk_0; lia).
+  replace (blen s - rpos s) with (blen s1 - rpos s1) by (unfold s1; sim; lia).
+  destruct (grow_body_spec s1 n o I1 Hn) as (s' & i & e & Hg & Hp).
+  exists s', i, e. split; [exact Hg|].
+  rewrite A1, P1 in Hp. change (limit s1) with (limit s) in Hp. change (cap s1) with (cap s) in Hp.
+  eapply grow_post_mono; [exact Hp | apply suffix_nil | unfold s1; sim; lia].
+Qed.
+
+Lemma quick_slice_spec s n o : inv s -> 0 <= n ->
+  exists s' i e, quick_slice s n o = Ok (s', (i, e)) /\
+     grow_post (abs s) (past s) (limit s) (blen s) (cap s) n s' i e.
+Proof.
+  intros H Hn. unfold quick_slice.
+  destruct (reslice_spec s n H Hn) as [R | (s' & R & HR)]; rewrite R; cbn [bind].
+  - apply grow_spec; assumption.
+  - exists s', (blen s), 0. split; [reflexivity|]. left. split; [reflexivity | assumption].
+Qed.
+
+(* ---- stores --------------------------------------------------------------------------------- *)
+Lemma ow_nil (m : list Z) i : 0 <= i -> overwrite m i [] = m.
+Proof. intros. unfold overwrite. rewrite len_nil. cbn [app]. replace (i + 0) with i by lia. apply tk_dr_id. Qed.
+
+(* s2 is s with d stored at index i of the buffer *)
+Definition stored (s : state) (i : Z) (d : list Z) (s2 : state) : Prop :=
+  inv s2 /\ buf s2 = overwrite (buf s) i d /\ rpos s2 = rpos s /\ blen s2 = blen s /\ limit s2 = limit s.
+
+Lemma with_mem_stored s i d : inv s -> 0 <= i -> i + len d <= blen s -> byte_list d ->
+  stored s i d (with_mem s (overwrite (mem s) i d)).
+Proof.
+  intros H Hi Hl Hb. pose proof (len_nonneg d). unfold inv in H. destruct H as (H1 & H2 & H3 & H4 & H5).
+  unfold stored, inv, buf; sim. rewrite ow_len by lia.
+  splits; try lia.
+  - intros Hn. specialize (H4 Hn). rewrite H4 in H3 |- *. rewrite len_nil in H3.
+    rewrite (len0_nil d) by lia. apply ow_nil. lia.
+  - apply bl_overwrite; assumption.
+  - apply ow_take_comm; lia.
+Qed.
+
+Lemma put_spec s i bs : inv s -> 0 <= i -> i + len bs <= blen s -> byte_list bs ->
+  exists s2, put s i bs = Ok s2 /\ stored s i bs s2.
+Proof.
+  intros H Hi Hl Hb. unfold put. destruct bs as [|b0 bs'].
+  - cbn [is_nil]. exists s. split; [reflexivity|]. unfold stored. rewrite ow_nil by lia. tauto.
+  - cbn [is_nil]. replace ((i <? 0) || (blen s <? i + len (b0 :: bs'))) with false by lia.
+    eexists. split; [reflexivity|]. apply with_mem_stored; assumption.
+Qed.
+
+Lemma copy_at_spec s i b : inv s -> 0 <= i <= blen s -> byte_list b ->
+  exists s2, copy_at s i b = Ok (s2, Z.min (blen s - i) (len b)) /\
+    stored s i (take (Z.min (blen s - i) (len b)) b) s2.
+Proof.
+  intros H Hi Hb. pose proof (buf_len s H) as Hbl. pose proof (len_nonneg b).
+  unfold copy_at. rewrite slice_ok by lia. cbn [bind].
+  rewrite tk_len by (rewrite dr_len by lia; lia).
+  eexists. split; [reflexivity|]. apply with_mem_stored; try assumption; try lia.
+  - rewrite tk_len by lia. lia.
+  - apply bl_take. assumption.
+Qed.
+
+(* storing d right at the end of a reservation appends d to the queue *)
+Lemma stored_append q p lim bl n s1 i d s2 :
+  reserved q p lim bl n s1 i -> stored s1 i d s2 -> i + len d = blen s1 ->
+  abs s2 = q ++ d /\ past s2 = past s1.
+Proof.
+  unfold reserved, stored. intros (R1 & R2 & R3 & R4 & R5 & R6 & R7 & R8 & R9 & R10) (S1 & S2 & S3 & S4 & S5) Hl.
+  pose proof (buf_len s1 R1) as Hbl. unfold inv in R1.
+  unfold abs, past. rewrite S2, S3. rewrite ow_end by lia.
+  split.
+  - rewrite dr_app_l by (rewrite tk_len by lia; lia). rewrite R7. reflexivity.
+  - rewrite tk_app_l by (rewrite tk_len by lia; lia). rewrite tk_tk by lia. reflexivity.
+Qed.
+
+Lemma reserved_inv q p lim bl n s1 i : reserved q p lim bl n s1 i -> inv s1 /\ 0 <= i.
+Proof. unfold reserved, inv. intros. split; [tauto | lia]. Qed.
+
+(* ================================================================================================ *)
+(* 4. Write                                                                                         *)
+(* ================================================================================================ *)
+Definition okstep (s s' : state) : Prop := inv s' /\ limit s' = limit s /\ (lim_ok s -> lim_ok s').
+
+Lemma same_q_okstep s s' : same_q (abs s) (past s) (limit s) (blen s) s' -> okstep s s'.
+Proof. unfold same_q, okstep, lim_ok. intros (S1 & S2 & S3 & S4 & S5). splits; try assumption. rewrite S2. lia. Qed.
+
+Lemma write_spec s b o : inv s -> byte_list b ->
+  exists s' n e, write s b o = Ok (s', (n, e)) /\ okstep s s' /\
+    qstep (limit s) (past s) (abs s) (OWrite b) (RNE n e) (past s') (abs s') /\
+    (e = ErrTooLarge -> MaxSlice < cap s + len b).
+Proof.
+  intros H Hb. pose proof (len_nonneg b) as Hlb. unfold write.
+  destruct (quick_slice_spec s (len b) o H Hlb) as (s1 & i & e & Hq & Hp). rewrite Hq. cbn [bind].
+  destruct Hp as [(He & Hr) | (Hi & He & Hs)].
+  - subst e. cbn [Z.eqb negb].
+    destruct (reserved_inv _ _ _ _ _ _ _ Hr) as (I1 & Hi0).
+    pose proof Hr as Hr'. unfold reserved in Hr'. destruct Hr' as (_ & R2 & R3 & R4 & R5 & R6 & R7 & R8 & R9 & R10).
+    destruct (copy_at_spec s1 i b I1 ltac:(lia) Hb) as (s2 & Hc & Hst). rewrite Hc. cbn [bind].
+    replace (Z.min (blen s1 - i) (len b)) with (blen s1 - i) in * by lia.
+    set (k := blen s1 - i) in *.
+    destruct (stored_append _ _ _ _ _ _ _ _ _ Hr Hst) as (A2 & P2); [rewrite tk_len by lia; lia|].
+    pose proof Hst as (S1 & S2 & S3 & S4 & S5).
+    assert (OK : okstep s s2) by (unfold okstep, lim_ok; splits; try assumption; lia).
+    destruct ((k <? len b) && (0 <? limit s2) && (limit s2 <=? blen s2)) eqn:E.
+    + exists s2, k, ErrLimit. split; [reflexivity|]. split; [exact OK|]. split.
+      * cbn [qstep]. rewrite A2, P2. unfold wr_err, ErrLimit, ErrTooLarge.
+        splits; try lia; try assumption; reflexivity.
+      * unfold ErrLimit, ErrTooLarge. discriminate.
+    + exists s2, k, 0. split; [reflexivity|]. split; [exact OK|]. split.
+      * cbn [qstep]. rewrite A2, P2. unfold wr_err.
+        splits; try lia; try assumption; reflexivity.
+      * unfold ErrTooLarge. discriminate.
+  - assert (Ene : negb (e =? 0) = true) by (unfold ErrLimit, ErrTooLarge in He; lia).
+    rewrite Ene. exists s1, 0, e. split; [reflexivity|]. split; [apply same_q_okstep; assumption|].
+    destruct Hs as (S1 & S2 & S3 & S4 & S5). split.
+    + cbn [qstep]. rewrite S3. rewrite tk_0 by lia. rewrite app_nil_r. unfold wr_err.
+      splits; try lia; try assumption; try reflexivity.
+      intros _. destruct b as [|b0 b']; [right; reflexivity|left]. rewrite len_cons. pose proof (len_nonneg b'). lia.
+    + intros Ht. destruct He as [(He & _) | (_ & He)]; [unfold ErrLimit, ErrTooLarge in *; lia | exact He].
+Qed.
+
+(* ================================================================================================ *)
+(* 5. typed writes                                                                                  *)
+(* ================================================================================================ *)
+Lemma check_write_size_spec s n o : inv s -> 0 <= n ->
+  exists s1 i e, check_write_size s n o = Ok (s1, (i, e)) /\
+    ((i = -1 /\ ((e = ErrLimit /\ 0 < limit s) \/ (e = ErrTooLarge /\ MaxSlice < cap s + n)) /\
+      same_q (abs s) (past s) (limit s) (blen s) s1) \/
+     (0 <= i /\ e = 0 /\ reserved (abs s) (past s) (limit s) (blen s) n s1 i /\ blen s1 = i + n)).
+Proof.
+  intros H Hn. unfold check_write_size, available.
+  destruct ((0 <? limit s) && negb ((limit s <=? 0) || (n <? limit s - blen s))) eqn:E.
+  { exists s, (-1), ErrLimit. split; [reflexivity|]. left. split; [reflexivity|].
+    split; [left; split; [reflexivity|lia] | apply same_q_refl; assumption]. }
+  destruct (quick_slice_spec s n o H Hn) as (s1 & i & e & Hq & Hp). rewrite Hq. cbn [bind].
+  destruct Hp as [(He & Hr) | (Hi & He & Hs)].
+  - subst e. destruct (reserved_inv _ _ _ _ _ _ _ Hr) as (I1 & Hi0).
+    pose proof Hr as Hr'. unfold reserved in Hr'. destruct Hr' as (_ & R2 & R3 & R4 & R5 & R6 & R7 & R8 & R9 & R10).
+    assert (Hb : blen s1 = i + n) by lia.
+    replace ((i =? 0) && negb (0 =? 0)) with false by lia.
+    replace ((limit s1 <=? 0) && (blen s1 <? i + n)) with false by lia.
+    exists s1, i, 0. split; [reflexivity|]. right. tauto.
+  - subst i. assert (Ene : negb (e =? 0) = true) by (unfold ErrLimit, ErrTooLarge in He; lia).
+    cbn [Z.eqb andb]. rewrite Ene. exists s1, (-1), e. split; [reflexivity|]. left. tauto.
+Qed.
+
+Lemma bl_be_bytes w v : byte_list (be_bytes w v).
+Proof.
+  unfold be_bytes, enc_u8, enc_u16, enc_u32, enc_u64, be16, be32, be64.
+  destruct (w =? 1); [|destruct (w =? 2); [|destruct (w =? 4)]]; repeat constructor; apply bl_u8.
+Qed.
+Lemma len_be_bytes w v : width_ok w -> len (be_bytes w v) = w.
+Proof. unfold width_ok. intros [H|[H|[H|H]]]; subst w; reflexivity. Qed.
+Lemma bl_enc_prefix l : byte_list (enc_prefix l).
+Proof.
+  unfold enc_prefix, be16, be32, be64.
+  destruct (l =? 0); [|destruct (l <? LimitSmall); [|destruct (l <? LimitMedium); [|destruct (l <? LimitLarge)]]];
+    repeat constructor; try apply bl_u8; lia.
+Qed.
+Lemma len_enc_prefix_pos l : 1 <= len (enc_prefix l).
+Proof.
+  unfold enc_prefix.
+  destruct (l =? 0); [|destruct (l <? LimitSmall); [|destruct (l <? LimitMedium); [|destruct (l <? LimitLarge)]]];
+    rewrite len_cons; match goal with |- 1 <= 1 + len ?x => pose proof (len_nonneg x) end; lia.
+Qed.
+
+(* a typed store of the encoding d: all of it or nothing *)
+Definition typed_post (s : state) (d : list Z) (s' : state) (e : Z) : Prop :=
+  okstep s s' /\ suffix_of (past s') (past s) /\
+  ((e = 0 /\ abs s' = abs s ++ d) \/
+   (((e = ErrLimit /\ 0 < limit s) \/ (e = ErrTooLarge /\ MaxSlice < cap s + len d)) /\ abs s' = abs s)).
+
+Lemma reserved_okstep s n s1 i : reserved (abs s) (past s) (limit s) (blen s) n s1 i -> okstep s s1.
+Proof. unfold reserved, okstep, lim_ok. intros (R1 & R2 & R3 & R4 & R5 & R6 & R7 & R8 & R9 & R10). splits; try assumption; try (intros _; rewrite R2; assumption). Qed.
+
+Lemma okstep_stored s s1 i d s2 : okstep s s1 -> stored s1 i d s2 -> okstep s s2.
+Proof. unfold okstep, stored, lim_ok. intros (O1 & O2 & O3) (S1 & S2 & S3 & S4 & S5). splits; try assumption; try lia. Qed.
+
+Lemma write_fixed_spec s bs o : inv s -> byte_list bs ->
+  exists s' e, write_fixed s bs o = Ok (s', e) /\ typed_post s bs s' e.
+Proof.
+  intros H Hb. pose proof (len_nonneg bs) as Hl. unfold write_fixed.
+  destruct (check_write_size_spec s (len bs) o H Hl) as (s1 & i & e & Hc & Hp). rewrite Hc. cbn [bind].
+  destruct Hp as [(Hi & He & Hs) | (Hi & He & Hr & Hbl)].
+  - subst i. cbn [Z.eqb]. exists s1, e. split; [reflexivity|].
+    unfold typed_post. split; [apply same_q_okstep; assumption|].
+    destruct Hs as (S1 & S2 & S3 & S4 & S5). split; [assumption|]. right. tauto.
+  - replace (i =? -1) with false by lia. subst e.
+    destruct (reserved_inv _ _ _ _ _ _ _ Hr) as (I1 & _).
+    destruct (put_spec s1 i bs I1 Hi ltac:(lia) Hb) as (s2 & Hput & Hst). rewrite Hput. cbn [bind].
+    exists s2, 0. split; [reflexivity|].
+    destruct (stored_append _ _ _ _ _ _ _ _ _ Hr Hst ltac:(lia)) as (A2 & P2).
+    unfold typed_post. split; [eapply okstep_stored; [eapply reserved_okstep; eassumption | eassumption]|].
+    rewrite P2. split; [unfold reserved in Hr; tauto|]. left. tauto.
+Qed.
+
+Lemma write_bytes_spec s b o : inv s -> byte_list b ->
+  exists s' e, write_bytes s b o = Ok (s', e) /\ typed_post s (enc_bytes b) s' e.
+Proof.
+  intros H Hb. pose proof (len_nonneg b) as Hl. unfold write_bytes.
+  destruct (len b =? 0) eqn:E0.
+  { assert (b = []) by (apply len0_nil; lia). subst b.
+    change (enc_bytes []) with [0]. apply write_fixed_spec; [assumption|]. repeat constructor; lia. }
+  set (hdr := enc_prefix (len b)).
+  pose proof (bl_enc_prefix (len b)) as Hbh. pose proof (len_enc_prefix_pos (len b)) as Hlh. fold hdr in Hbh, Hlh.
+  assert (Hel : len (enc_bytes b) = len hdr + len b) by (unfold enc_bytes; rewrite len_app; reflexivity).
+  destruct (check_write_size_spec s (len hdr + len b) o H ltac:(lia)) as (s1 & i & e & Hc & Hp). rewrite Hc. cbn [bind].
+  destruct Hp as [(Hi & He & Hs) | (Hi & He & Hr & Hbl)].
+  - subst i. cbn [Z.eqb]. exists s1, e. split; [reflexivity|].
+    unfold typed_post. split; [apply same_q_okstep; assumption|].
+    destruct Hs as (S1 & S2 & S3 & S4 & S5). split; [assumption|]. right. rewrite Hel. tauto.
+  - replace (i =? -1) with false by lia. subst e.
+    destruct (reserved_inv _ _ _ _ _ _ _ Hr) as (I1 & _).
+    pose proof (buf_len s1 I1) as Hbl1.
+    destruct (idx_ok (buf s1) (i + len hdr + len b - 1) ltac:(lia)) as (x & Hx). rewrite Hx. cbn [bind].
+    destruct (put_spec s1 i hdr I1 Hi ltac:(lia) Hbh) as (s2 & Hput & Hst). rewrite Hput. cbn [bind].
+    destruct Hst as (I2 & B2 & Rp2 & Bl2 & L2).
+    destruct (copy_at_spec s2 (i + len hdr) b I2 ltac:(lia) Hb) as (s3 & Hcp & Hst3). rewrite Hcp. cbn [bind].
+    replace (Z.min (blen s2 - (i + len hdr)) (len b)) with (len b) in * by lia.
+    replace (negb (len b =? len b)) with false by lia.
+    exists s3, 0. split; [reflexivity|].
+    rewrite tk_all in Hst3 by lia.
+    (* the two stores are one store of the whole encoding *)
+    assert (Hst' : stored s1 i (enc_bytes b) s3).
+    { destruct Hst3 as (I3 & B3 & Rp3 & Bl3 & L3). unfold stored. splits; try assumption; try lia.
+      rewrite B3, B2. unfold enc_bytes. fold hdr.
+      assert (len (overwrite (buf s1) i hdr) = len (buf s1)) by (apply ow_len; lia).
+      rewrite (ow_end (overwrite (buf s1) i hdr)) by lia.
+      rewrite ow_take_hi by lia.
+      rewrite (ow_end (buf s1) i (hdr ++ b)) by (try rewrite len_app; lia).
+      rewrite app_assoc. reflexivity. }
+    destruct (stored_append _ _ _ _ _ _ _ _ _ Hr Hst' ltac:(lia)) as (A3 & P3).
+    unfold typed_post. split; [eapply okstep_stored; [eapply reserved_okstep; eassumption | eassumption]|].
+    rewrite P3. split; [unfold reserved in Hr; tauto|]. left. tauto.
+Qed.
+
+(* positional writes: a store inside the buffer *)
+Lemma write_pos_spec s w p v : inv s -> width_ok w -> 0 <= p ->
+  exists s' e, write_pos s w p v = Ok (s', e) /\ okstep s s' /\
+    qstep (limit s) (past s) (abs s) (OWritePos w p v) (RErr e) (past s') (abs s').
+Proof.
+  intros H Hw Hp. pose proof (len_be_bytes w v Hw) as Hlw. pose proof (bl_be_bytes w v) as Hbw.
+  assert (1 <= w) by (unfold width_ok in Hw; lia).
+  assert (Hok : okstep s s) by (unfold okstep; tauto).
+  unfold write_pos.
+  destruct ((blen s <=? p) || (blen s <=? p + (w - 1))) eqn:E1.
+  { exists s, EOF. split; [reflexivity|]. split; [assumption|]. cbn [qstep]. unfold EOF. cbn [Z.eqb]. tauto. }
+  destruct ((0 <? limit s) && ((limit s <=? p) || (limit s <=? p + (w - 1)))) eqn:E2.
+  { exists s, ErrLimit. split; [reflexivity|]. split; [assumption|]. cbn [qstep]. unfold ErrLimit. cbn [Z.eqb]. tauto. }
+  destruct (put_spec s p (be_bytes w v) H Hp ltac:(lia) Hbw) as (s2 & Hput & Hst). rewrite Hput. cbn [bind].
+  exists s2, 0. split; [reflexivity|]. split; [eapply okstep_stored; eassumption|].
+  destruct Hst as (I2 & B2 & Rp2 & Bl2 & L2).
+  cbn [qstep Z.eqb]. rewrite <- !buf_split. rewrite !past_len by assumption. rewrite buf_len by assumption.
+  splits; try lia. exact B2.
+Qed.
+
+(* ================================================================================================ *)
+(* 6. reads                                                                                         *)
+(* ================================================================================================ *)
+Lemma okstep_refl s : inv s -> okstep s s.
+Proof. unfold okstep. tauto. Qed.
+Lemma okstep_trans a b c : okstep a b -> okstep b c -> okstep a c.
+Proof. unfold okstep. intros (A1 & A2 & A3) (B1 & B2 & B3). splits; [assumption | congruence | tauto]. Qed.
+
+Lemma tk_min {A} n (l : list A) : take (Z.min n (len l)) l = take n l.
+Proof. destruct (Z.le_gt_cases n (len l)); [rewrite Z.min_l by lia; reflexivity | rewrite Z.min_r by lia; rewrite !tk_all by lia; reflexivity]. Qed.
+Lemma dr_min {A} n (l : list A) : drop (Z.min n (len l)) l = drop n l.
+Proof. destruct (Z.le_gt_cases n (len l)); [rewrite Z.min_l by lia; reflexivity | rewrite Z.min_r by lia; rewrite !dr_all by lia; reflexivity]. Qed.
+
+(* moving the read cursor forward by k *)
+Lemma adv_spec s k : inv s -> 0 <= k <= len (abs s) ->
+  let s' := with_rpos s (rpos s + k) in
+  inv s' /\ abs s' = drop k (abs s) /\ past s' = past s ++ take k (abs s) /\ okstep s s' /\ buf s' = buf s.
+Proof.
+  intros H Hk. pose proof (abs_len s H) as Hal. pose proof (buf_len s H) as Hbl.
+  assert (I' : inv (with_rpos s (rpos s + k))) by (unfold inv in *; sim; splits; try lia; tauto).
+  cbv zeta. splits.
+  - exact I'.
+  - unfold abs, buf; sim. fold (buf s). rewrite dr_dr by (unfold inv in H; lia). f_equal. lia.
+  - unfold past, abs, buf; sim. fold (buf s). unfold inv in H.
+    rewrite (tk_split (rpos s) (rpos s + k)) by lia. do 2 f_equal. lia.
+  - unfold okstep, lim_ok; sim. tauto.
+  - reflexivity.
+Qed.
+
+Lemma read_spec s n : inv s -> 0 <= n ->
+  exists s' d e, read s n = Ok (s', (d, e)) /\ okstep s s' /\
+    qstep (limit s) (past s) (abs s) (ORead n) (RData d e) (past s') (abs s').
+Proof.
+  intros H Hn. pose proof (abs_len s H) as Hal. pose proof H as Hinv. unfold inv in H. destruct H as (H1 & H2 & H3 & H4 & H5).
+  unfold read, empty.
+  destruct ((blen s <=? rpos s) && negb (isnil s)) eqn:E.
+  - rewrite set_len_ok by (unfold cap; sim; pose proof (len_nonneg (mem s)); lia). cbn [bind].
+    set (s1 := with_len (with_rpos s 0) 0).
+    assert (I1 : inv s1) by (unfold inv, s1; sim; splits; try lia; assumption).
+    assert (Hq : abs s = []) by (apply len0_nil; lia).
+    assert (A1 : abs s1 = []) by (apply len0_nil; rewrite abs_len by assumption; unfold s1; sim; lia).
+    assert (P1 : past s1 = []) by (unfold past, s1; sim; apply tk_0; lia).
+    assert (OK : okstep s s1) by (unfold okstep, lim_ok, s1; sim; splits; try assumption; try reflexivity; lia).
+    assert (Q : forall e, (e = 0 \/ e = EOF /\ n <> 0) ->
+      qstep (limit s) (past s) (abs s) (ORead n) (RData [] e) (past s1) (abs s1)).
+    { intros e He. cbn [qstep]. rewrite Hq, A1, P1. rewrite tk_all, dr_all by (rewrite len_nil; lia).
+      splits; try reflexivity; [apply suffix_nil | tauto]. }
+    destruct (n =? 0) eqn:En.
+    + exists s1, [], 0. split; [reflexivity|]. split; [exact OK | apply Q; tauto].
+    + exists s1, [], EOF. split; [reflexivity|]. split; [exact OK | apply Q; right; split; [reflexivity|lia]].
+  - rewrite slice_abs by assumption. cbn [bind].
+    set (k := Z.min n (len (abs s))).
+    destruct (adv_spec s k Hinv ltac:(subst k; pose proof (len_nonneg (abs s)); lia)) as (I' & A' & P' & OK & _).
+    eexists _, _, 0. split; [reflexivity|]. split; [exact OK|].
+    cbn [qstep]. rewrite A', P'. subst k. rewrite tk_min, dr_min.
+    splits; try reflexivity; [apply suffix_refl | tauto].
+Qed.
+
+Lemma read_fixed_eq s w : inv s -> 1 <= w ->
+  read_fixed s w = if len (abs s) <? w then Ok (s, (0, EOF))
+                   else Ok (with_rpos s (rpos s + w), (of_be (take w (abs s)) 0, 0)).
+Proof.
+  intros H Hw. pose proof (abs_len s H) as Hal. pose proof (buf_len s H) as Hbl. unfold inv in H.
+  unfold read_fixed. replace (blen s <? rpos s + w) with (len (abs s) <? w) by lia.
+  destruct (len (abs s) <? w) eqn:E; [reflexivity|].
+  destruct (idx_ok (buf s) (rpos s + w - 1) ltac:(lia)) as (x & Hx). rewrite Hx. cbn [bind].
+  rewrite slice_ok by lia. cbn [bind]. replace (rpos s + w - rpos s) with w by lia. reflexivity.
+Qed.
+
+Lemma rd_uN_eq w q : rd_uN w q = if len q <? w then Err EOF else Ok (of_be (take w q) 0, drop w q).
+Proof. unfold rd_uN, rd_fixed. destruct (len q <? w); reflexivity. Qed.
+
+Lemma read_fixed_spec s w : inv s -> width_ok w ->
+  exists s' v e, read_fixed s w = Ok (s', (v, e)) /\ okstep s s' /\
+    qstep (limit s) (past s) (abs s) (OReadFixed w) (RVal v e) (past s') (abs s').
+Proof.
+  intros H Hw. assert (1 <= w) by (unfold width_ok in Hw; lia).
+  rewrite read_fixed_eq by assumption. cbn [qstep]. rewrite rd_uN_eq.
+  destruct (len (abs s) <? w) eqn:E.
+  - exists s, 0, EOF. split; [reflexivity|]. split; [apply okstep_refl; assumption|]. right. tauto.
+  - destruct (adv_spec s w H ltac:(lia)) as (I' & A' & P' & OK & _).
+    eexists _, _, 0. split; [reflexivity|]. split; [exact OK|]. left. rewrite A', P'. tauto.
+Qed.
+
+(* ---- Bytes: the codec's flat reader on the queue ------------------------------------------------ *)
+Lemma rd_u8_uN q : rd_u8 q = rd_uN 1 q.
+Proof.
+  rewrite rd_uN_eq. destruct q as [|b r]; [reflexivity|].
+  rewrite len_cons. pose proof (len_nonneg r). replace (1 + len r <? 1) with false by lia.
+  unfold take, drop. change (Z.to_nat 1) with 1%nat. cbn [firstn skipn of_be]. reflexivity.
+Qed.
+
+Lemma rd_prefix_alt q :
+  rd_prefix q = do '(t, r) <- rd_uN 1 q;
+                if t =? 0 then Ok (None, r)
+                else if tag_width t =? 0 then Err ErrInvalidType
+                else do '(n, r') <- rd_uN (tag_width t) r; Ok (Some n, r').
+Proof.
+  unfold rd_prefix. rewrite rd_u8_uN. destruct (rd_uN 1 q) as [[t r]| |]; cbn [bind]; try reflexivity.
+  unfold tag_width, rd_u16, rd_u32, rd_u64. rewrite rd_u8_uN.
+  destruct (t =? 0); [reflexivity|].
+  destruct ((t =? 1) || (t =? 2)); [reflexivity|].
+  destruct ((t =? 3) || (t =? 4)); [reflexivity|].
+  destruct ((t =? 5) || (t =? 6)); [reflexivity|].
+  destruct ((t =? 7) || (t =? 8)); reflexivity.
+Qed.
+
+Lemma tag_width_cases t : tag_width t = 0 \/ width_ok (tag_width t).
+Proof.
+  unfold tag_width, width_ok.
+  destruct ((t =? 1) || (t =? 2)); [tauto|]. destruct ((t =? 3) || (t =? 4)); [tauto|].
+  destruct ((t =? 5) || (t =? 6)); [tauto|]. destruct ((t =? 7) || (t =? 8)); tauto.
+Qed.
+
+Lemma read_bytes_spec s : inv s ->
+  exists s' d e, read_bytes s = Ok (s', (d, e)) /\ okstep s s' /\
+    qstep (limit s) (past s) (abs s) OBytes (RData d e) (past s') (abs s').
+Proof.
+  intros H. unfold read_bytes. cbn [qstep]. unfold rd_bytes. rewrite rd_prefix_alt, rd_uN_eq.
+  rewrite read_fixed_eq by (assumption || lia).
+  assert (Hsame : suffix_of (abs s) (abs s) /\ past s ++ abs s = past s ++ abs s) by (split; [apply suffix_refl | reflexivity]).
+  destruct (len (abs s) <? 1) eqn:E1; cbn [bind].
+  { cbn [Z.eqb negb]. exists s, [], EOF. split; [reflexivity|]. split; [apply okstep_refl; assumption|].
+    split; [right; split; [unfold EOF; lia | reflexivity] | exact Hsame]. }
+  cbn [Z.eqb negb].
+  destruct (adv_spec s 1 H ltac:(lia)) as (I1 & A1 & P1 & OK1 & B1).
+  set (s1 := with_rpos s (rpos s + 1)) in *. set (t := of_be (take 1 (abs s)) 0).
+  assert (S1 : suffix_of (abs s1) (abs s) /\ past s1 ++ abs s1 = past s ++ abs s).
+  { split; [rewrite A1; apply suffix_drop | rewrite <- !buf_split; exact B1]. }
+  destruct (t =? 0) eqn:Et.
+  { exists s1, [], 0. split; [reflexivity|]. split; [exact OK1|].
+    split; [left; split; [reflexivity | rewrite A1; reflexivity] | exact S1]. }
+  destruct (tag_width t =? 0) eqn:Ew.
+  { exists s1, [], ErrInvalidType. split; [reflexivity|]. split; [exact OK1|].
+    split; [right; split; [unfold ErrInvalidType; lia | reflexivity] | exact S1]. }
+  assert (Hw : 1 <= tag_width t) by (destruct (tag_width_cases t) as [?|W]; [lia | unfold width_ok in W; lia]).
+  set (w := tag_width t) in *.
+  rewrite read_fixed_eq by assumption. rewrite rd_uN_eq. rewrite <- A1.
+  destruct (len (abs s1) <? w) eqn:E2; cbn [bind].
+  { cbn [Z.eqb negb]. exists s1, [], EOF. split; [reflexivity|]. split; [exact OK1|].
+    split; [right; split; [unfold EOF; lia | reflexivity] | exact S1]. }
+  cbn [Z.eqb negb].
+  destruct (adv_spec s1 w I1 ltac:(lia)) as (I2 & A2 & P2 & OK2 & B2).
+  set (s2 := with_rpos s1 (rpos s1 + w)) in *. set (l := of_be (take w (abs s1)) 0).
+  assert (OK12 : okstep s s2) by (eapply okstep_trans; eassumption).
+  assert (S2 : suffix_of (abs s2) (abs s) /\ past s2 ++ abs s2 = past s ++ abs s).
+  { split; [eapply suffix_trans; [|apply S1]; rewrite A2; apply suffix_drop | rewrite <- !buf_split; rewrite B2; exact B1]. }
+  rewrite <- A2.
+  destruct (l =? 0) eqn:El.
+  { exists s2, [], ErrUnexpectedEOF. split; [reflexivity|]. split; [exact OK12|].
+    split; [right; split; [unfold ErrUnexpectedEOF; lia | reflexivity] | exact S2]. }
+  destruct (MaxSlice <? l) eqn:Em.
+  { exists s2, [], ErrTooLarge. split; [reflexivity|]. split; [exact OK12|].
+    split; [right; split; [unfold ErrTooLarge; lia | reflexivity] | exact S2]. }
+  assert (Hl : 0 <= l) by (apply of_be_nonneg; [apply bl_take; apply bl_abs; assumption | lia]).
+  pose proof (abs_len s2 I2) as Hal2. pose proof (buf_len s2 I2) as Hbl2. pose proof I2 as I2'. unfold inv in I2'.
+  replace (blen s2 <? rpos s2 + l) with (len (abs s2) <? l) by lia.
+  destruct (len (abs s2) <? l) eqn:E3.
+  - rewrite slice_abs by assumption. cbn [bind].
+    replace (blen s2) with (rpos s2 + len (abs s2)) by lia.
+    destruct (adv_spec s2 (len (abs s2)) I2 ltac:(lia)) as (I3 & A3 & P3 & OK3 & B3).
+    eexists _, _, EOF. split; [reflexivity|]. split; [eapply okstep_trans; eassumption|].
+    split; [right; split; [unfold EOF; lia | reflexivity]|].
+    split; [eapply suffix_trans; [|apply S2]; rewrite A3; apply suffix_drop | rewrite <- !buf_split; rewrite B3, B2; exact B1].
+  - rewrite slice_ok by lia. cbn [bind]. replace (rpos s2 + l - rpos s2) with l by lia. fold (abs s2).
+    destruct (adv_spec s2 l I2 ltac:(lia)) as (I3 & A3 & P3 & OK3 & B3).
+    eexists _, _, 0. split; [reflexivity|]. split; [eapply okstep_trans; eassumption|].
+    split; [left; split; [reflexivity | rewrite A3; reflexivity]|].
+    split; [eapply suffix_trans; [|apply S2]; rewrite A3; apply suffix_drop | rewrite <- !buf_split; rewrite B3, B2; exact B1].
+Qed.
+
+(* ================================================================================================ *)
+(* 7. Seek / Truncate / Grow / Reset / Clear                                                        *)
+(* ================================================================================================ *)
+Ltac fin := cbv iota;
+  repeat (match goal with |- context [if ?c then _ else _] =>
+            first [replace c with true by lia | replace c with false by lia] end; cbv iota);
+  splits; auto.
+
+Lemma seek_spec s o w s' n e : inv s -> seek s o w = (s', (n, e)) ->
+  okstep s s' /\ qstep (limit s) (past s) (abs s) (OSeek o w) (RNE n e) (past s') (abs s').
+Proof.
+  intros H E. pose proof (past_len s H) as Hpl. pose proof (buf_len s H) as Hbl. pose proof H as Hinv. unfold inv in H.
+  assert (Hgo : forall t, 0 <= t <= blen s ->
+     okstep s (with_rpos s t) /\ past (with_rpos s t) = take t (buf s) /\ abs (with_rpos s t) = drop t (buf s)).
+  { intros t Ht. split; [|split; reflexivity].
+    unfold okstep, inv, lim_ok; sim. splits; try lia; tauto. }
+  pose proof (okstep_refl s Hinv) as Hrefl.
+  unfold seek in E. cbv zeta in E. cbn [qstep]. unfold seek_pos. rewrite <- buf_split, Hpl, Hbl.
+  destruct (w =? 0) eqn:E0.
+  { destruct (o <? 0) eqn:Eo; cbn [orb] in E; [injection E as <- <- <-; fin|].
+    destruct (blen s <? o) eqn:Eb; injection E as <- <- <-; [fin|].
+    destruct (Hgo o ltac:(lia)) as (G1 & G2 & G3). fin. }
+  destruct (w =? 1) eqn:E1.
+  { destruct ((i64 (o + rpos s) <? 0) || (blen s <? i64 (o + rpos s))) eqn:Eb; injection E as <- <- <-; [fin|].
+    destruct (Hgo (i64 (o + rpos s)) ltac:(lia)) as (G1 & G2 & G3). fin. }
+  destruct (w =? 2) eqn:E2.
+  { destruct ((i64 (o + blen s) <? 0) || (blen s <? i64 (o + blen s))) eqn:Eb; injection E as <- <- <-; [fin|].
+    destruct (Hgo (i64 (o + blen s)) ltac:(lia)) as (G1 & G2 & G3). fin. }
+  injection E as <- <- <-. fin.
+Qed.
+
+Lemma reset_spec s : inv s ->
+  exists s', reset s = Ok s' /\ okstep s s' /\ abs s' = [] /\ past s' = [].
+Proof.
+  intros H. pose proof H as Hinv. unfold inv in H. destruct H as (H1 & H2 & H3 & H4 & H5).
+  unfold reset. rewrite set_len_ok by (unfold cap; sim; pose proof (len_nonneg (mem s)); lia).
+  eexists. split; [reflexivity|].
+  set (s1 := with_len (with_rpos s 0) 0).
+  assert (I1 : inv s1) by (unfold inv, s1; sim; splits; try lia; assumption).
+  splits.
+  - unfold okstep, lim_ok, s1; sim. splits; try assumption; try reflexivity; lia.
+  - apply len0_nil. rewrite abs_len by assumption. unfold s1; sim; lia.
+  - unfold past, s1; sim. apply tk_0; lia.
+Qed.
+
+Lemma clear_spec s : okstep s (clear s) /\ abs (clear s) = [] /\ past (clear s) = [].
+Proof.
+  unfold okstep, inv, lim_ok, clear; sim. change (len (@nil Z)) with 0.
+  splits; try lia; try reflexivity. apply bl_nil.
+Qed.
+
+Lemma truncate_spec s n : inv s ->
+  exists s' e, truncate s n = Ok (s', e) /\ okstep s s' /\
+    qstep (limit s) (past s) (abs s) (OTruncate n) (RErr e) (past s') (abs s').
+Proof.
+  intros H. pose proof (abs_len s H) as Hal. unfold truncate. cbn [qstep].
+  destruct (n =? 0) eqn:E0.
+  { destruct (reset_spec s H) as (s1 & R & OK & A & P). rewrite R. cbn [bind].
+    exists s1, 0. split; [reflexivity|]. tauto. }
+  rewrite Hal.
+  destruct ((n <? 0) || (blen s - rpos s <? n)) eqn:E1.
+  { exists s, ErrInvalidIndex. split; [reflexivity|]. split; [apply okstep_refl; assumption | tauto]. }
+  pose proof H as Hinv. unfold inv in H. destruct H as (H1 & H2 & H3 & H4 & H5).
+  rewrite set_len_ok by (unfold cap; lia). cbn [bind].
+  eexists _, 0. split; [reflexivity|]. splits; try reflexivity.
+  - unfold okstep, inv, lim_ok; sim. splits; try lia; assumption.
+  - unfold abs, buf; sim. rewrite !dr_tk by lia. rewrite tk_tk by lia. f_equal. lia.
+  - unfold past, buf; sim. rewrite !tk_tk by lia. reflexivity.
+Qed.
+
+Lemma grow_op_spec s n o : inv s ->
+  exists s' e, grow_op s n o = Ok (s', e) /\ okstep s s' /\
+    qstep (limit s) (past s) (abs s) (OGrow n) (RErr e) (past s') (abs s').
+Proof.
+  intros H. unfold grow_op. cbn [qstep].
+  destruct (n <=? 0) eqn:E0.
+  { exists s, ErrInvalidIndex. split; [reflexivity|]. split; [apply okstep_refl; assumption|].
+    splits; [reflexivity | apply suffix_refl | reflexivity]. }
+  destruct (grow_spec s n o H ltac:(lia)) as (s1 & i & e & Hg & Hp). rewrite Hg. cbn [bind].
+  destruct Hp as [(He & Hr) | (Hi & He & Hs)].
+  - subst e. cbn [Z.eqb negb].
+    pose proof Hr as (R1 & R2 & R3 & R4 & R5 & R6 & R7 & R8 & R9 & R10).
+    pose proof (buf_len s1 R1) as Hbl. pose proof R1 as R1'. unfold inv in R1'. destruct R1' as (I1 & I2 & I3 & I4 & I5).
+    rewrite set_len_ok by (unfold cap; lia). cbn [bind].
+    eexists _, 0. split; [reflexivity|]. splits.
+    + unfold okstep, inv, lim_ok; sim. splits; try lia; assumption.
+    + unfold abs, buf in *; sim. rewrite (tk_tk i (blen s1)) in R7 by lia. exact R7.
+    + unfold past, buf in *; sim. rewrite (tk_tk (rpos s1) (blen s1)) in R8 by lia. rewrite (tk_tk (rpos s1) i) by lia. exact R8.
+    + unfold wr_err. tauto.
+  - assert (Ene : negb (e =? 0) = true) by (unfold ErrLimit, ErrTooLarge in He; lia).
+    rewrite Ene. exists s1, e. split; [reflexivity|]. split; [apply same_q_okstep; assumption|].
+    destruct Hs as (S1 & S2 & S3 & S4 & S5). splits; try assumption. unfold wr_err. tauto.
+Qed.
+
+(* ================================================================================================ *)
+(* 8. WriteTo: the loop hands out exactly the unread bytes, in order                                *)
+(* ================================================================================================ *)
+Lemma write_to_loop_spec s : inv s -> forall fuel n sI eI budget lens got,
+  rpos s <= sI <= blen s -> sI < eI -> n = sI - rpos s -> got = take n (abs s) ->
+  blen s - sI < Z.of_nat fuel ->
+  exists n' e lens' got', write_to_loop fuel s n sI eI budget lens got = Ok (n', e, lens', got') /\
+    n <= n' <= blen s - rpos s /\ got' = take n' (abs s) /\ (e = 0 \/ e = ErrSink) /\ (e = 0 -> n' = blen s - rpos s).
+Proof.
+  intros H. pose proof (buf_len s H) as Hbl. pose proof (abs_len s H) as Hal. pose proof H as Hinv. unfold inv in H.
+  induction fuel as [|f IH]; intros n sI eI budget lens got HsI HeI Hn Hgot Hf; [lia|].
+  cbn [write_to_loop].
+  destruct (negb (n <? blen s)) eqn:E1.
+  { exists n, 0, lens, got. split; [reflexivity|]. splits; try lia; try assumption; tauto. }
+  set (eI' := if blen s <? eI then blen s else eI).
+  assert (HeI' : sI <= eI' <= blen s /\ (sI = eI' -> sI = blen s)) by (subst eI'; destruct (blen s <? eI) eqn:Ee; lia).
+  destruct (sI =? eI') eqn:E2.
+  { exists n, 0, lens, got. split; [reflexivity|]. splits; try lia; try assumption; tauto. }
+  rewrite slice_ok by lia. cbn [bind].
+  set (p := take (eI' - sI) (drop sI (buf s))).
+  assert (Hp : len p = eI' - sI) by (subst p; rewrite tk_len; [lia | rewrite dr_len by lia; lia]).
+  (* the bytes handed out so far, extended by the first v bytes of this slice *)
+  assert (Hext : forall v, 0 <= v <= eI' - sI -> got ++ take v p = take (n + v) (abs s)).
+  { intros v Hv. subst got p. rewrite tk_tk by lia.
+    rewrite (tk_split n (n + v)) by lia. f_equal. replace (n + v - n) with v by lia.
+    unfold abs. rewrite dr_dr by lia. do 2 f_equal. lia. }
+  destruct (len p <=? budget) eqn:E3.
+  - cbn [Z.eqb negb].
+    assert (G : got ++ take (len p) p = take (n + len p) (abs s)) by (apply Hext; lia).
+    destruct (IH (n + len p) eI' (eI' + len p) (budget - len p) (lens ++ [len p]) (got ++ take (len p) p)
+                ltac:(lia) ltac:(lia) ltac:(lia) G ltac:(lia))
+      as (n' & e & lens' & got' & Hr & Hn' & Hg' & He1 & He2).
+    exists n', e, lens', got'. split; [exact Hr|]. splits; try lia; assumption.
+  - assert (Hv : 0 <= Z.max budget 0 < len p) by lia.
+    replace (negb (ErrSink =? 0)) with true by reflexivity.
+    eexists _, ErrSink, _, _. split; [reflexivity|]. unfold ErrSink. splits; try lia.
+    apply Hext. lia.
+Qed.
+
+Lemma write_to_spec s budget : inv s ->
+  exists s' n e lens got, write_to s budget = Ok (s', (n, e, lens, got)) /\ okstep s s' /\
+    qstep (limit s) (past s) (abs s) (OWriteTo budget) (RWriteTo n e lens got) (past s') (abs s').
+Proof.
+  intros H. pose proof (abs_len s H) as Hal. pose proof H as Hinv. unfold inv in H.
+  unfold write_to, empty. cbn [qstep].
+  destruct (blen s <=? rpos s) eqn:E.
+  { exists s, 0, 0, [], []. split; [reflexivity|]. split; [apply okstep_refl; assumption|].
+    rewrite tk_0, dr_0, app_nil_r by lia. splits; try lia; try reflexivity; tauto. }
+  assert (G0 : [] = take 0 (abs s)) by (rewrite tk_0 by lia; reflexivity).
+  destruct (write_to_loop_spec s Hinv (S (Z.to_nat (blen s - rpos s))) 0 (rpos s) (rpos s + bufSize) budget [] []
+              ltac:(lia) ltac:(unfold bufSize; lia) ltac:(lia) G0 ltac:(lia))
+    as (n & e & lens & got & Hr & Hn & Hg & He1 & He2).
+  rewrite Hr. cbn [bind].
+  destruct (adv_spec s n Hinv ltac:(lia)) as (I' & A' & P' & OK & _).
+  eexists _, n, e, lens, got. split; [reflexivity|]. split; [exact OK|].
+  rewrite A', P', Hg. splits; try lia; try reflexivity; assumption.
+Qed.
+
+(* ================================================================================================ *)
+(* 9. ReadFrom: a prefix of what the readers hand out is appended                                   *)
+(* ================================================================================================ *)
+Lemma read_from_loop_spec rs : forall s t reqs, inv s ->
+  Forall (fun r => len (fst (fst r)) <= bufSize /\ byte_list (fst (fst r))) rs ->
+  exists s' t' e reqs', read_from_loop rs s t reqs = Ok (s', (t', e, reqs')) /\ okstep s s' /\
+    t <= t' <= t + len (all_data rs) /\ abs s' = abs s ++ take (t' - t) (all_data rs) /\
+    suffix_of (past s') (past s).
+Proof.
+  induction rs as [|[[d e] o] rest IH]; intros s t reqs H Hrs.
+  - (* the reader is exhausted *)
+    assert (Hend : forall rq : list Z, exists s' t' (e : Z) (reqs' : list Z), Ok (s, (t, 0, rq)) = Ok (s', (t', e, reqs')) /\ okstep s s' /\
+      t <= t' <= t + len (all_data []) /\ abs s' = abs s ++ take (t' - t) (all_data []) /\ suffix_of (past s') (past s)).
+    { intros rq. exists s, t, 0, rq. split; [reflexivity|]. split; [apply okstep_refl; assumption|].
+      unfold all_data. cbn [map concat]. rewrite len_nil. rewrite tk_0 by lia. rewrite app_nil_r.
+      splits; try lia; [reflexivity | apply suffix_refl]. }
+    cbn [read_from_loop]. destruct ((0 <? limit s) && (space s <=? 0)); apply Hend.
+  - inversion Hrs as [|x l0 [Hd1 Hd2] Hrest]; subst. cbn [fst] in Hd1, Hd2.
+    pose proof (len_nonneg d) as Hld. pose proof (len_nonneg (all_data rest)) as Hlr.
+    assert (Hall : all_data ((d, e, o) :: rest) = d ++ all_data rest) by reflexivity.
+    rewrite Hall. rewrite len_app.
+    cbn [read_from_loop].
+    destruct ((0 <? limit s) && (space s <=? 0)) eqn:E0.
+    { exists s, t, 0, reqs. split; [reflexivity|]. split; [apply okstep_refl; assumption|].
+      replace (t - t) with 0 by lia. rewrite tk_0 by lia. rewrite app_nil_r.
+      splits; try lia; [reflexivity | apply suffix_refl]. }
+    set (reqs1 := reqs ++ [if 0 <? limit s then Z.min (space s) bufSize else bufSize]).
+    replace (bufSize <? len d) with false by lia.
+    destruct (0 <? len d) eqn:En.
+    + destruct (write_spec s d o H Hd2) as (s1 & w & e2 & Hw & OK1 & Hq & _). rewrite Hw. cbn [bind].
+      cbn [qstep] in Hq. destruct Hq as (Hw1 & A1 & P1 & _ & Hw2 & _).
+      destruct OK1 as (I1 & L1 & LO1).
+      replace (if w <? len d then w else len d) with w by (destruct (w <? len d) eqn:Ew; lia).
+      assert (OK1 : okstep s s1) by (unfold okstep; tauto).
+      destruct (negb (e2 =? 0)) eqn:Ee2.
+      { exists s1, (t + w), e, reqs1. split; [reflexivity|]. split; [exact OK1|].
+        replace (t + w - t) with w by lia. rewrite tk_app_l by lia.
+        splits; try lia; assumption. }
+      assert (w = len d) by (apply Hw2; lia). subst w.
+      destruct ((len d =? 0) || negb (e =? 0) || ((0 <? limit s) && (limit s <=? len d))) eqn:Estop.
+      { eexists s1, (t + len d), _, reqs1. split; [reflexivity|]. split; [exact OK1|].
+        replace (t + len d - t) with (len d) by lia. rewrite tk_app_l by lia.
+        splits; try lia; assumption. }
+      destruct (IH s1 (t + len d) reqs1 I1 Hrest) as (s' & t' & e' & reqs' & Hr & OK' & Ht' & A' & P').
+      exists s', t', e', reqs'. split; [exact Hr|]. split; [eapply okstep_trans; eassumption|].
+      splits; try lia.
+      * rewrite A', A1. rewrite (tk_all (len d) d) by lia. rewrite tk_app_r by lia.
+        rewrite <- app_assoc. do 3 f_equal. lia.
+      * eapply suffix_trans; eassumption.
+    + (* an empty read ends the loop *)
+      cbn [bind Z.eqb negb].
+      replace ((len d =? 0) || negb (e =? 0) || ((0 <? limit s) && (limit s <=? len d))) with true by lia.
+      eexists s, t, _, reqs1. split; [reflexivity|]. split; [apply okstep_refl; assumption|].
+      replace (t - t) with 0 by lia. rewrite tk_0 by lia. rewrite app_nil_r.
+      splits; try lia; [reflexivity | apply suffix_refl].
+Qed.
+
+(* ================================================================================================ *)
+(* 10. one step of the implementation refines one step of the byte queue                            *)
+(* ================================================================================================ *)
+Lemma typed_post_qstep s d s' e : typed_post s d s' e ->
+  wr_err (limit s) e /\ abs s' = (if e =? 0 then abs s ++ d else abs s) /\ suffix_of (past s') (past s).
+Proof.
+  unfold typed_post, wr_err. intros (_ & P & [(He & A) | (He & A)]).
+  - subst e. cbn [Z.eqb]. tauto.
+  - replace (e =? 0) with false by (unfold ErrLimit, ErrTooLarge in He; lia). tauto.
+Qed.
+
+Theorem step_refines s o orc : inv s -> op_ok o ->
+  exists s' r, step s o orc = Ok (s', r) /\ okstep s s' /\
+    qstep (limit s) (past s) (abs s) o r (past s') (abs s').
+Proof.
+  intros H Hop. destruct o; cbn [step op_ok] in *.
+  - destruct (write_spec s b orc H Hop) as (s' & n & e & Hw & OK & Q & _). rewrite Hw. cbn [bind].
+    exists s', (RNE n e). tauto.
+  - destruct (write_fixed_spec s (be_bytes w v) orc H (bl_be_bytes w v)) as (s' & e & Hw & TP). rewrite Hw. cbn [bind].
+    exists s', (RErr e). split; [reflexivity|]. split; [unfold typed_post in TP; tauto|].
+    cbn [qstep]. apply typed_post_qstep. assumption.
+  - destruct (write_bytes_spec s b orc H Hop) as (s' & e & Hw & TP). rewrite Hw. cbn [bind].
+    exists s', (RErr e). split; [reflexivity|]. split; [unfold typed_post in TP; tauto|].
+    cbn [qstep]. apply typed_post_qstep. assumption.
+  - destruct Hop as (Hw & Hp).
+    destruct (write_pos_spec s w p v H Hw Hp) as (s' & e & Hw' & OK & Q). rewrite Hw'. cbn [bind].
+    exists s', (RErr e). tauto.
+  - destruct (read_spec s n H Hop) as (s' & d & e & Hr & OK & Q). rewrite Hr. cbn [bind].
+    exists s', (RData d e). tauto.
+  - destruct (read_fixed_spec s w H Hop) as (s' & v & e & Hr & OK & Q). rewrite Hr. cbn [bind].
+    exists s', (RVal v e). tauto.
+  - destruct (read_bytes_spec s H) as (s' & d & e & Hr & OK & Q). rewrite Hr. cbn [bind].
+    exists s', (RData d e). tauto.
+  - destruct (seek s o w) as [s' [n e]] eqn:E. exists s', (RNE n e). split; [reflexivity|].
+    apply seek_spec; assumption.
+  - destruct (truncate_spec s n H) as (s' & e & Hr & OK & Q). rewrite Hr. cbn [bind].
+    exists s', (RErr e). tauto.
+  - destruct (grow_op_spec s n orc H) as (s' & e & Hr & OK & Q). rewrite Hr. cbn [bind].
+    exists s', (RErr e). tauto.
+  - destruct (reset_spec s H) as (s' & Hr & OK & A & P). rewrite Hr. cbn [bind].
+    exists s', RNone. cbn [qstep]. tauto.
+  - destruct (clear_spec s) as (OK & A & P). exists (clear s), RNone. cbn [qstep]. tauto.
+  - destruct (write_to_spec s budget H) as (s' & n & e & lens & got & Hr & OK & Q). rewrite Hr. cbn [bind].
+    exists s', (RWriteTo n e lens got). tauto.
+  - destruct (read_from_loop_spec reads s 0 [] H Hop) as (s' & t' & e & reqs' & Hr & OK & Ht & A & P). rewrite Hr. cbn [bind].
+    exists s', (RReadFrom t' e reqs'). split; [reflexivity|]. split; [exact OK|].
+    cbn [qstep]. replace (t' - 0) with t' in A by lia. splits; try lia; assumption.
+Qed.
+
+(* what a step that returned is known to satisfy *)
+Lemma step_ok s o orc s' r : inv s -> op_ok o -> step s o orc = Ok (s', r) ->
+  okstep s s' /\ qstep (limit s) (past s) (abs s) o r (past s') (abs s').
+Proof.
+  intros H Hop E. destruct (step_refines s o orc H Hop) as (s2 & r2 & E2 & OK & Q).
+  rewrite E in E2. injection E2 as <- <-. tauto.
+Qed.
+
+Theorem inv_preserved s o orc s' r : inv s -> op_ok o -> step s o orc = Ok (s', r) -> inv s' /\ limit s' = limit s.
+Proof. intros H Hop E. destruct (step_ok s o orc s' r H Hop E) as ((I & L & _) & _). tauto. Qed.
+
+Theorem no_panic s o orc : inv s -> op_ok o -> exists s' r, step s o orc = Ok (s', r).
+Proof. intros H Hop. destruct (step_refines s o orc H Hop) as (s' & r & E & _). eauto. Qed.
+
+(* ================================================================================================ *)
+(* 11. histories                                                                                    *)
+(* ================================================================================================ *)
+Definition ops_ok (l : list (op * Z)) : Prop := Forall (fun x => op_ok (fst x)) l.
+
+Theorem run_refines : forall l s, inv s -> ops_ok l ->
+  exists s' rs, run s l = Ok (s', rs) /\ okstep s s' /\ length rs = length l /\
+    qsteps (limit s) (past s) (abs s) (history l rs) (past s') (abs s').
+Proof.
+  induction l as [|[o orc] l IH]; intros s H Hl.
+  - exists s, []. cbn [run]. split; [reflexivity|]. split; [apply okstep_refl; assumption|].
+    split; [reflexivity|]. cbn. tauto.
+  - inversion Hl as [|x l0 Ho Hl']; subst. cbn [fst] in Ho.
+    destruct (step_refines s o orc H Ho) as (s1 & r & E & OK1 & Q).
+    pose proof OK1 as (I1 & L1 & _).
+    destruct (IH s1 I1 Hl') as (s' & rs & Er & OK & Hlen & Qs).
+    exists s', (r :: rs). cbn [run]. rewrite E. cbn [bind]. rewrite Er. cbn [bind].
+    split; [reflexivity|]. split; [eapply okstep_trans; eassumption|].
+    split; [cbn [length]; lia|].
+    unfold history. cbn [map fst combine qsteps]. exists (past s1), (abs s1).
+    split; [exact Q|]. rewrite L1 in Qs. exact Qs.
+Qed.
+
+Theorem no_panic_run l s : inv s -> ops_ok l -> exists s' rs, run s l = Ok (s', rs) /\ inv s'.
+Proof.
+  intros H Hl. destruct (run_refines l s H Hl) as (s' & rs & E & (I & _) & _). eauto.
+Qed.
+
+Lemma run_app : forall l1 l2 s,
+  run s (l1 ++ l2) = do '(s1, r1) <- run s l1; do '(s2, r2) <- run s1 l2; Ok (s2, r1 ++ r2).
+Proof.
+  induction l1 as [|[o orc] l1 IH]; intros l2 s.
+  - cbn [app run bind]. destruct (run s l2) as [[s2 r2]| |]; reflexivity.
+  - cbn [app run]. destruct (step s o orc) as [[s1 x]| |]; cbn [bind]; try reflexivity.
+    rewrite IH. destruct (run s1 l1) as [[s2 r1]| |]; cbn [bind]; try reflexivity.
+    destruct (run s2 l2) as [[s3 r2]| |]; reflexivity.
+Qed.
+
+(* the Limit: a buffer within its Limit stays within it, after every step of every history *)
+Theorem limit_invariant l1 l2 s s' rs : inv s -> lim_ok s -> ops_ok (l1 ++ l2) ->
+  run s (l1 ++ l2) = Ok (s', rs) ->
+  exists s1 r1, run s l1 = Ok (s1, r1) /\ limit s1 = limit s /\ (0 < limit s -> blen s1 <= limit s).
+Proof.
+  intros H Hlim Hl E. unfold ops_ok in Hl. apply Forall_app in Hl. destruct Hl as (Hl1 & Hl2).
+  destruct (run_refines l1 s H Hl1) as (s1 & r1 & E1 & (I1 & L1 & LO1) & _).
+  exists s1, r1. split; [exact E1|]. split; [exact L1|].
+  intros Hpos. specialize (LO1 Hlim). unfold lim_ok in LO1. rewrite L1 in LO1. auto.
+Qed.
+
+(* ---- FIFO: the queue only loses bytes at the front and only gains bytes at the back ------------- *)
+Lemma qstep_rw lim p q o r p' q' : is_write o || is_read o = true -> qstep lim p q o r p' q' ->
+  exists t, q ++ accepted o r = t ++ q' /\ (is_write o || is_raw_read o = true -> t = delivered o r).
+Proof.
+  intros Hrw Q.
+  destruct o; cbn [is_write is_read orb] in Hrw; try discriminate;
+    destruct r; cbn [qstep] in Q; try contradiction; cbn [accepted delivered is_write is_raw_read orb].
+  - (* Write *) destruct Q as (_ & Q & _). exists []. subst q'. split; [reflexivity | auto].
+  - (* typed *) destruct Q as (_ & Q & _). exists []. subst q'. destruct (e =? 0); rewrite ?app_nil_r; split; auto.
+  - destruct Q as (_ & Q & _). exists []. subst q'. destruct (e =? 0); rewrite ?app_nil_r; split; auto.
+  - (* Read *) destruct Q as (Qd & Q & _). exists d. subst d q'. rewrite app_nil_r, tk_dr_id. split; auto.
+  - (* typed read *) rewrite rd_uN_eq in Q. rewrite app_nil_r.
+    destruct Q as [(_ & Q & _) | (_ & _ & _ & Q & _)].
+    + destruct (len q <? w); [discriminate|]. injection Q as _ Q. exists (take w q). subst q'.
+      rewrite tk_dr_id. split; [reflexivity | discriminate].
+    + exists []. subst q'. split; [reflexivity | discriminate].
+  - (* Bytes *) destruct Q as (_ & (c & Q) & _). exists c. rewrite app_nil_r. split; [exact Q | discriminate].
+  - (* WriteTo *) destruct Q as (_ & Qg & Q & _). exists got. subst got q'. rewrite app_nil_r, tk_dr_id. split; auto.
+  - (* ReadFrom *) destruct Q as (_ & Q & _). exists []. subst q'. split; [reflexivity | auto].
+Qed.
+
+Definition rw_ops (l : list (op * Z)) : Prop := Forall (fun x => is_write (fst x) || is_read (fst x) = true) l.
+Definition raw_ops (l : list (op * Z)) : Prop := Forall (fun x => is_write (fst x) || is_raw_read (fst x) = true) l.
+
+Theorem fifo_history : forall l s s' rs, inv s -> ops_ok l -> rw_ops l -> run s l = Ok (s', rs) ->
+  exists t, abs s ++ accepted_all (history l rs) = t ++ abs s' /\
+            (raw_ops l -> t = delivered_all (history l rs)).
+Proof.
+  induction l as [|[o orc] l IH]; intros s s' rs H Hl Hrw E.
+  - cbn [run] in E. injection E as <- <-. exists []. cbn. rewrite app_nil_r. auto.
+  - inversion Hl as [|x l0 Ho Hl']; subst. inversion Hrw as [|x l0 Hrw1 Hrw']; subst. cbn [fst] in Ho, Hrw1.
+    cbn [run] in E.
+    destruct (step s o orc) as [[s1 r]| |] eqn:E1; cbn [bind] in E; try discriminate.
+    destruct (run s1 l) as [[s2 rs2]| |] eqn:E2; cbn [bind] in E; try discriminate.
+    injection E as <- <-.
+    destruct (step_ok s o orc s1 r H Ho E1) as ((I1 & L1 & _) & Q).
+    destruct (qstep_rw _ _ _ _ _ _ _ Hrw1 Q) as (t1 & Ht1 & Hd1).
+    destruct (IH s1 s2 rs2 I1 Hl' Hrw' E2) as (t2 & Ht2 & Hd2).
+    exists (t1 ++ t2). unfold history in *. cbn [map fst combine accepted_all delivered_all].
+    split.
+    + rewrite app_assoc, Ht1, <- app_assoc, Ht2, app_assoc. reflexivity.
+    + intros Hraw. inversion Hraw as [|x l0 Hr1 Hr']; subst. cbn [fst] in Hr1.
+      rewrite (Hd1 Hr1), (Hd2 Hr'). reflexivity.
+Qed.
+
+(* on a chunk that starts empty: everything handed to readers, followed by what is still unread,
+   is exactly everything that was accepted -- so what was read is a prefix of what was accepted *)
+Corollary fifo_fresh l s s' rs : inv s -> abs s = [] -> ops_ok l -> rw_ops l -> raw_ops l ->
+  run s l = Ok (s', rs) ->
+  accepted_all (history l rs) = delivered_all (history l rs) ++ abs s'.
+Proof.
+  intros H Hq Hl Hrw Hraw E. destruct (fifo_history l s s' rs H Hl Hrw E) as (t & Ht & Hd).
+  rewrite Hq in Ht. cbn [app] in Ht. rewrite <- (Hd Hraw). exact Ht.
+Qed.
+
+(* ================================================================================================ *)
+(* 12. Write reports exactly what it accepted; typed writes are all-or-nothing                      *)
+(* ================================================================================================ *)
+Theorem write_reports_exact s b orc : inv s -> byte_list b ->
+  exists s' n e, step s (OWrite b) orc = Ok (s', RNE n e) /\
+    0 <= n <= len b /\ abs s' = abs s ++ take n b /\
+    (e = 0 \/ (e = ErrLimit /\ 0 < limit s) \/ (e = ErrTooLarge /\ MaxSlice < cap s + len b)) /\
+    (e = 0 -> n = len b) /\ (n < len b -> e <> 0) /\ (e <> 0 -> b <> [] -> n < len b) /\
+    (lim_ok s -> 0 < limit s -> blen s' <= limit s).
+Proof.
+  intros H Hb. cbn [step].
+  destruct (write_spec s b orc H Hb) as (s' & n & e & Hw & (I & L & LO) & Q & TL). rewrite Hw. cbn [bind].
+  exists s', n, e. split; [reflexivity|]. cbn [qstep] in Q. destruct Q as (Q1 & Q2 & Q3 & Q4 & Q5 & Q6).
+  unfold wr_err in Q4. unfold lim_ok in LO. rewrite L in LO.
+  splits; try assumption; try lia.
+  intros He Hne. destruct (Q6 He) as [?|?]; [assumption | contradiction].
+Qed.
+
+Theorem typed_write_atomic s o orc s' e : inv s -> op_ok o ->
+  (exists w v, o = OWriteFixed w v) \/ (exists b, o = OWriteBytes b) ->
+  step s o orc = Ok (s', RErr e) ->
+  (e <> 0 -> abs s' = abs s) /\ (e = 0 -> abs s' = abs s ++ accepted o (RErr 0)).
+Proof.
+  intros H Hop Ho E. destruct (step_ok s o orc s' (RErr e) H Hop E) as (_ & Q).
+  destruct Ho as [(w & v & ->) | (b & ->)]; cbn [qstep accepted] in *; destruct Q as (_ & Q & _); rewrite Q; cbn [Z.eqb];
+    (split; [intros He; replace (e =? 0) with false by lia; reflexivity | intros ->; reflexivity]).
+Qed.
+
+(* ================================================================================================ *)
+(* 13. regression: the definitions before the two repairs, and the witnesses against them           *)
+(* ================================================================================================ *)
+(* WriteBytes as it was before commit 4f382ba: the class byte is reserved first, the rest after *)
+Definition write_bytes_old (s : state) (b : list Z) (o : Z) : res (state * Z) :=
+  let l := len b in
+  do '(s1, (i, e)) <- check_write_size s 1 o;
+  if i =? -1 then Ok (s1, e) else
+  if l =? 0 then do s2 <- put s1 i [0]; Ok (s2, e) else
+  let hdr := enc_prefix l in
+  do '(s2, (x, e2)) <- check_write_size s1 (len hdr - 1 + l) o;
+  if x =? -1 then Ok (s2, e2) else
+  do _ <- idx (buf s2) (i + (len hdr - 1) + l);
+  do s3 <- put s2 i hdr;
+  do '(s4, n) <- copy_at s3 (x + (len hdr - 1)) b;
+  if negb (n =? l) then Ok (s4, ErrShortWrite) else Ok (s4, e2).
+
+(* Limit 10, WriteBytes of 8 bytes on a fresh chunk: refused with the limit error, one byte stays *)
+Lemma writebytes_stray_refuted :
+  exists s b o s' e, inv s /\ byte_list b /\ write_bytes_old s b o = Ok (s', e) /\ e = ErrLimit /\ abs s' = [0] /\ abs s = [].
+Proof.
+  exists (init_state 10 None), (gen 7 8), 0. eexists _, _.
+  split; [unfold inv, init_state; sim; change (len (@nil Z)) with 0; splits; try lia; auto using bl_nil|].
+  split; [change (gen 7 8) with [7;8;9;10;11;12;13;14]; repeat constructor; lia|].
+  split; [vm_compute; reflexivity|]. split; [reflexivity|]. split; vm_compute; reflexivity.
+Qed.
+(* the repaired WriteBytes on the same input leaves the queue untouched *)
+Lemma writebytes_stray_fixed :
+  exists s' , write_bytes (init_state 10 None) (gen 7 8) 0 = Ok (s', ErrLimit) /\ abs s' = [].
+Proof. eexists. split; vm_compute; reflexivity. Qed.
+
+(* grow as it was before commit fe80422: the slide branch does not look at the Limit *)
+Definition grow_body_old (s1 : state) (x n o : Z) : res (state * (Z * Z)) :=
+  let lim := limit s1 in
+  if (0 <? lim) && (lim <=? x) then Ok (s1, (0, ErrLimit)) else
+  let n := if (0 <? lim) && (lim <? n) then lim else n in
+  do r <- reslice s1 n;
+  match r with
+  | Some (s2, i) => Ok (s2, (i, 0))
+  | None =>
+    if isnil s1 && (n <=? 64) then
+      if n <? 0 then Panic else Ok (St (repeat 0 64%nat) n (rpos s1) lim false, (0, 0))
+    else
+      let m := cap s1 in
+      if n <=? m / 2 - x then
+        do src <- slice (buf s1) (rpos s1) (blen s1);
+        let s2 := with_mem s1 (overwrite (mem s1) 0 src) in
+        do s3 <- set_len (with_rpos s2 0) (x + n); Ok (s3, (x, 0))
+      else grow_body s1 x n o
+  end.
+Definition write_old (s : state) (b : list Z) (o : Z) : res (state * (Z * Z)) :=
+  do '(s1, (m, e)) <-
+     (do r <- reslice s (len b);
+      match r with
+      | Some (s', m) => Ok (s', (m, 0))
+      | None => let x := blen s - rpos s in
+                do s1 <- (if (x =? 0) && negb (rpos s =? 0) then set_len (with_rpos s 0) 0 else Ok s);
+                grow_body_old s1 x (len b) o
+      end);
+  if negb (e =? 0) then Ok (s1, (0, e)) else
+  do '(s2, n) <- copy_at s1 m b;
+  if (n <? len b) && (0 <? limit s2) && (limit s2 <=? blen s2) then Ok (s2, (n, ErrLimit))
+  else Ok (s2, (n, 0)).
+
+(* Limit 8: Write 8 bytes, Read 1, Write 2: the old slide made the buffer 9 bytes long *)
+Lemma slide_limit_refuted :
+  exists s1 s2 s3 d, write (init_state 8 None) (gen 1 8) 0 = Ok (s1, (8, 0)) /\
+    read s1 1 = Ok (s2, (d, 0)) /\ inv s2 /\ lim_ok s2 /\
+    write_old s2 (gen 1 2) 0 = Ok (s3, (2, 0)) /\ limit s3 = 8 /\ blen s3 = 9.
+Proof.
+  eexists _, _, _, _. split; [vm_compute; reflexivity|]. split; [vm_compute; reflexivity|].
+  split; [unfold inv; sim; splits; try (vm_compute; congruence); try discriminate|].
+  { repeat constructor; lia. }
+  split; [unfold lim_ok; sim; lia|].
+  split; [vm_compute; reflexivity|]. split; reflexivity.
+Qed.
+Lemma slide_limit_fixed :
+  exists s1 s2 s3 d, write (init_state 8 None) (gen 1 8) 0 = Ok (s1, (8, 0)) /\
+    read s1 1 = Ok (s2, (d, 0)) /\ write s2 (gen 1 2) 0 = Ok (s3, (1, ErrLimit)) /\ blen s3 = 8.
+Proof.
+  eexists _, _, _, _. split; [vm_compute; reflexivity|]. split; [vm_compute; reflexivity|].
+  split; [vm_compute; reflexivity | reflexivity].
+Qed.
+
+(* ================================================================================================ *)
+(* 14. a concrete history (non-vacuity)                                                             *)
+(* ================================================================================================ *)
+Definition demo_ops : list (op * Z) :=
+  [ (OWrite [1;2;3;4;5;6], 0); (ORead 4, 0); (OWrite [7;8;9;10;11;12], 0); (OReadFixed 2, 0); (ORead 10, 0); (ORead 1, 0);
+    (OWriteFixed 2 513, 0); (OWriteBytes [42;43], 0); (OReadFixed 2, 0); (OBytes, 0);
+    (OWrite [9;9;9;9;9;9;9;9;9], 0) ].
+
+Lemma demo_ok : inv (init_state 8 None) /\ lim_ok (init_state 8 None) /\ ops_ok demo_ops.
+Proof.
+  split; [unfold inv, init_state; sim; change (len (@nil Z)) with 0; splits; try lia; auto using bl_nil|].
+  split; [unfold lim_ok, init_state; sim; lia|].
+  unfold ops_ok, demo_ops. repeat constructor; cbn; unfold width_ok; lia.
+Qed.
+
+Lemma demo_run :
+  exists s', run (init_state 8 None) demo_ops =
+      Ok (s', [RNE 6 0; RData [1;2;3;4] 0; RNE 2 ErrLimit; RVal 1286 0; RData [7;8] 0; RData [] EOF;
+               RErr 0; RErr 0; RVal 513 0; RData [42;43] 0; RNE 2 ErrLimit]) /\
+    abs s' = [9;9] /\ blen s' = 8 /\ limit s' = 8.
+Proof. eexists. split; [vm_compute; reflexivity|]. split; [|split]; vm_compute; reflexivity. Qed.
